@@ -59,10 +59,16 @@ Inductive perr := IndexError | ValueError.
 Inductive pres (A : Type) := POk (a : A) | PErr (e : perr).
 Arguments POk {A}. Arguments PErr {A}.
 
+(* {int(s[0], 16): s[1] ...}: the key expression is evaluated before the value expression, so a line whose only token is not a
+   number raises ValueError, not IndexError *)
 Definition parse_line (line : list N) : pres (N * list N) :=
   match split line with
-  | t0 :: t1 :: _ => match parse_hex t0 with Some n => POk (n, t1) | None => PErr ValueError end
-  | _ => PErr IndexError          (* s[0] / s[1] on a short token list *)
+  | [] => PErr IndexError                                   (* s[0] on an empty token list *)
+  | t0 :: r =>
+      match parse_hex t0 with
+      | None => PErr ValueError
+      | Some n => match r with t1 :: _ => POk (n, t1) | [] => PErr IndexError end      (* s[1] *)
+      end
   end.
 
 Fixpoint parse_lines (ls : list (list N)) : pres (list (N * list N)) :=
